@@ -84,10 +84,26 @@ type blockingOp struct {
 func newLockAnalysis(p *Program, owner *types.Named) *lockAnalysis {
 	la := &lockAnalysis{p: p, owner: owner, fields: map[*types.Var]bool{}, memo: map[string]bool{}}
 	if owner != nil {
-		st := owner.Underlying().(*types.Struct)
-		for i := 0; i < st.NumFields(); i++ {
-			la.fields[st.Field(i)] = true
+		// the owner's fields, including those promoted from embedded structs of the same package
+		var add func(st *types.Struct, depth int)
+		add = func(st *types.Struct, depth int) {
+			for i := 0; i < st.NumFields(); i++ {
+				f := st.Field(i)
+				la.fields[f] = true
+				if f.Embedded() && depth < 3 {
+					t := f.Type()
+					if p, isPtr := t.(*types.Pointer); isPtr {
+						t = p.Elem()
+					}
+					if n, isNamed := t.(*types.Named); isNamed && n.Obj().Pkg() == owner.Obj().Pkg() {
+						if es, isStruct := n.Underlying().(*types.Struct); isStruct {
+							add(es, depth+1)
+						}
+					}
+				}
+			}
 		}
+		add(owner.Underlying().(*types.Struct), 0)
 	}
 	return la
 }
